@@ -109,6 +109,8 @@ func VerifQuantize() {
 	verifObserveOut(op, &d, res, err)
 	verifAssert(verifErrSpec(c, res, err), "C03."+op+".err")
 	verifAssert(res&^(Inexact|Rounded|InvalidOperation|Subnormal|Clamped) == 0, "C09."+op+".noflow") // never Underflow/Overflow
+	verifAssert(res&^(Inexact|Rounded|InvalidOperation|Subnormal|Clamped) == 0, "C02."+op+".noflow")
+	verifAssert(verifIff(res.InvalidOperation(), d.Form == NaN), "C02."+op+".invalid_iff_nan")
 
 	g := verifConcretize(qe - int64(x.Exponent))
 	var T, M BigInt
@@ -168,6 +170,7 @@ func VerifQuantize() {
 			verifAssert(res&(Inexact|Rounded) == 0, "C09.rti_value.flags")
 		} else {
 			verifAssert(verifAnd(verifIff(res.Inexact(), verifNot(exact)), verifImplies(res.Inexact(), res.Rounded())), "C09."+op+".flags")
+			verifAssert(verifAnd(verifIff(res.Inexact(), verifNot(exact)), verifImplies(res.Inexact(), res.Rounded())), "C02."+op+".flags")
 		}
 		verifCover(op + ".drop")
 	} else {
